@@ -16,6 +16,7 @@ structure Items where
   cq : Nat := 0
   cm : Nat := 0
   ca : Bool := false
+  st : Option String := none      -- block statistics (absent / processed_messages)
 
 /-- a block = its nine tables, each in its own heap cell -/
 structure St where
@@ -64,7 +65,7 @@ def copyBlock (s : St) (dst src : Nat) : Option St := do
     | .dangling => (acc.1, acc.2.1, acc.2.2.1, false)) (s1.heap, [], s1.nextCell, true)
   -- the items are copied; a copy starts reading at the beginning
   let it := getItems s src
-  if ok then some (setItems (setBlock { s1 with heap := heap, nextCell := next } dst nts) dst { q := it.q, m := it.m, a := it.a }) else none
+  if ok then some (setItems (setBlock { s1 with heap := heap, nextCell := next } dst nts) dst { q := it.q, m := it.m, a := it.a, st := it.st }) else none
 
 def tableOf (ts : List (String × Table)) (n : String) : Option Table := (ts.find? (·.1 == n)).map (·.2)
 def setTable (ts : List (String × Table)) (n : String) (t : Table) : List (String × Table) :=
@@ -87,6 +88,14 @@ def stepTok (s : St) (tok : String) : St × String :=
     | some d, some sr => match copyBlock s d sr with | some s' => (s', "ok") | none => (s, "E")
     | _, _ => (s, "bad-op")
   | ["w", _] => (s, "-")
+  | ["st", b, n] =>
+    match b.toNat? >>= fun b => (getBlock s b).map (b, ·) with
+    | some (b, _) => let it := getItems s b; (setItems s b { it with st := some n }, "ok")
+    | none => (s, "E")
+  | ["gs", b] =>
+    match b.toNat? >>= fun b => (getBlock s b).map (b, ·) with
+    | some (b, _) => (s, (getItems s b).st.getD "none")
+    | none => (s, "E")
   | ["iq", b, port] =>
     match b.toNat? >>= fun b => (getBlock s b).map (b, ·) with
     | some (b, _) => let it := getItems s b; (setItems s b { it with q := it.q ++ [port] }, "ok")
